@@ -48,7 +48,7 @@ SHRINK_FIELDS = ["mutations"]
 _CHILDREN: List[Child] = []
 
 NEAR_MISS = ["cahce", "k_retreival", "enabeld", "t22", "sim_treshold", "budgest", "polcy", "max_worker", "alpha_sim ", "Tiers", "xyz", ""]
-BAD_LEAVES: List[Any] = ["str", "", [], {}, None, True, -1, 0, 10**30, 10**400, -10**400, {"$pow10": 5000}, 1e308, -1e308, float("nan"), float("inf"), float("-inf"), [1, 2], {"x": 1}, "1", "true", 3.7,
+BAD_LEAVES: List[Any] = ["str", "", [], {}, None, True, -1, 0, 10**30, 10**400, -10**400, {"$pow10": 5000}, {"$yaml": "date"}, {"$yaml": "binary"}, {"$yaml": "set"}, {"$yaml": "datetime"}, 1e308, -1e308, float("nan"), float("inf"), float("-inf"), [1, 2], {"x": 1}, "1", "true", 3.7,
                         [[1]], [{}], [["t2:semantic"]], [None], [1.5, "x"], {"a": [1]}, [[]]]
 LIST_KNOBS = [(["t4", "cache", "namespaces"], ["t2:semantic"]), (["t2", "tiers"], ["exact_semantic", "archive"]),
               (["t2", "lancedb"], {"partitions": {"by": ["owner", "quarter"], "shard_order": "lex"}}),
@@ -201,6 +201,11 @@ def build(p: Dict[str, Any]) -> Any:
             if v is None:
                 continue
             m = dict(m, value=v)
+        if isinstance(m.get("value"), dict) and set(m["value"]) == {"$yaml"}:
+            # values only YAML can spell (the CLI reads YAML): kept symbolic in the program
+            import datetime as _dt
+            m = dict(m, value={"date": _dt.date(2024, 1, 1), "binary": b"hi", "set": {"a", "b"},
+                               "datetime": _dt.datetime(2024, 1, 1, 12, 0, 0)}[m["value"]["$yaml"]])
         if isinstance(m.get("value"), dict) and set(m["value"]) == {"$pow10"}:
             m = dict(m, value=10 ** int(m["value"]["$pow10"]))   # kept symbolic in the program: no decimal text exists for it
         cur = tree
@@ -244,6 +249,24 @@ def cli_validate(text: str) -> Dict[str, Any]:
                 rc = int(e.code or 0)
             except Exception as e:  # noqa: BLE001
                 return {"rc": -1, "out": out.getvalue(), "exc": "%s: %s" % (type(e).__name__, str(e)[:200])}
+        # machine-readable mode of the same script: same verdict, and what it prints for an accepted file is JSON
+        outj, errj = io.StringIO(), io.StringIO()
+        rcj: Any = None
+        excj = None
+        with contextlib.redirect_stdout(outj), contextlib.redirect_stderr(errj):
+            try:
+                rcj = cli.main(["validate_config.py", "--json", path])
+            except SystemExit as e:
+                rcj = int(e.code or 0)
+            except Exception as e:  # noqa: BLE001
+                excj = "%s: %s" % (type(e).__name__, str(e)[:200])
+        json_ok = None
+        if excj is None and rcj == 0:
+            try:
+                json.loads(outj.getvalue())
+                json_ok = True
+            except Exception:  # noqa: BLE001
+                json_ok = False
         # the umbrella command `python -m clematis validate <file>` is the same validator behind another front door
         out2, err2 = io.StringIO(), io.StringIO()
         rc2: Any = None
@@ -262,7 +285,8 @@ def cli_validate(text: str) -> Dict[str, Any]:
         finally:
             os.chdir(cwd)
         return {"rc": rc, "out": out.getvalue(), "hashseed": os.environ.get("PYTHONHASHSEED"),
-                "umbrella": {"rc": rc2, "out": out2.getvalue(), "err": err2.getvalue()[-300:], "exc": exc2}}
+                "umbrella": {"rc": rc2, "out": out2.getvalue(), "err": err2.getvalue()[-300:], "exc": exc2},
+                "json_mode": {"rc": rcj, "exc": excj, "json_ok": json_ok, "err": errj.getvalue()[-200:]}}
     finally:
         try:
             os.remove(path)
@@ -387,6 +411,14 @@ def execute(p: Dict[str, Any]) -> Dict[str, Any]:
         if "exc" in res:
             bad("total:cli:%s" % res["exc"].split(":")[0], "CLI raised %s" % res["exc"])
             continue
+        jm = res.get("json_mode") or {}
+        if jm:
+            if jm.get("exc"):
+                bad("total:cli-json:%s" % str(jm["exc"]).split(":")[0], "validate --json raised %s" % jm["exc"])
+            elif (jm.get("rc") == 0) != (res["rc"] == 0):
+                bad("consistency:cli-json-vs-plain", "--json rc=%s (stderr %r), plain rc=%s" % (jm.get("rc"), jm.get("err"), res["rc"]))
+            elif jm.get("json_ok") is False:
+                bad("consistency:cli-json-not-json", "--json printed something that is not JSON for an accepted file")
         um = res.get("umbrella") or {}
         if um:
             if um.get("exc"):
